@@ -66,7 +66,7 @@ impl Scenario for C16 {
     fn meta(&self) -> Meta {
         Meta {
             level: "exploration",
-            rule: "run = one real node (batch size in {1,2,3,5,10}) with 2-3 scripted peers authenticated through the real handshake (one of them possibly without a fetch url); universe of 4..10 real chain blocks plus 2 fork blocks plus fake hashes; 5..60/200 operations from {announce a block by a peer (same block by several peers, any height order), announce an unknown hash, timer round (2.1 s + routing timer), complete a pending fetch with the right block / an undecodable body / a different block, fail a pending fetch, disconnect a peer, the consensus processor's request for a block (missing parent) together with / without the peer's own announcement of it}; in a third of the runs the node has initial_loading_completed = true and the scripted server hands over children before their parents, so that the consensus processor's own missing-parent requests reach the scheduler; after each operation everything except fetch completions runs to quiescence. Oracle at the I/O boundary after every operation: per peer the fetches in flight never exceed the batch size; no (peer, hash) is requested while already in flight; within one batch the heights requested from one peer are non-decreasing and no never-requested lower height announced by that peer is skipped; at the end (30 rounds with every fetch succeeding) every announced real block the node still lacks has been requested at least once from a peer with a url; in the persistent-failure variant a block that always fails is requested at most 501 times over 520 rounds. distinct_nontrivial = distinct op-sequence digests with >= 1 quota-full moment or >= 1 failed fetch.",
+            rule: "run = one real node (batch size in {1,2,3,5,10}) with 2-3 scripted peers authenticated through the real handshake (one of them possibly without a fetch url); universe of 4..10 real chain blocks plus 2 fork blocks plus fake hashes; 5..60/200 operations from {announce a block by a peer (same block by several peers, any height order), announce an unknown hash, timer round (2.1 s + routing timer), complete a pending fetch with the right block / an undecodable body / a different block, fail a pending fetch, disconnect a peer, the consensus processor's request for a block (missing parent) together with / without the peer's own announcement of it}; in a third of the runs the node has initial_loading_completed = true and the scripted server hands over children before their parents, so that the consensus processor's own missing-parent requests reach the scheduler; after each operation everything except fetch completions runs to quiescence. Oracle at the I/O boundary after every operation: per peer the fetches in flight never exceed the batch size; no (peer, hash) is requested while already in flight; within one batch the heights requested from one peer are non-decreasing and no never-requested lower height announced by that peer is skipped; at the end (30 rounds with every fetch succeeding) every announced real block the node still lacks has been requested at least once from a peer with a url; in the persistent-failure variant a block that always fails is requested at most 501 times over 1100 rounds, and a block announced afterwards by a peer that gave up on it is requested within 6 rounds. distinct_nontrivial = distinct op-sequence digests with >= 1 quota-full moment or >= 1 failed fetch.",
             real: &["BlockchainSyncState", "RoutingThread::process_incoming_block_hash/fetch_next_blocks/process_network_event/process_timer_event/process_event", "Network::process_incoming_block_hash", "VerificationThread::verify_block", "ConsensusThread (BlockFetched)", "handshake"],
             stubs: &["scripted peers on SimNet", "fetch completions chosen by the scenario", "SimClock"],
             assumptions: &["in flight = requested through InterfaceIO::fetch_block_from_peer and not yet completed by the (simulated) network controller"],
@@ -355,7 +355,7 @@ impl Scenario for C16 {
         }
         // completeness / retry bound once faults stop
         if r.violations.is_empty() {
-            let rounds = if plan.persistent_failure { 520 } else { 30 };
+            let rounds = if plan.persistent_failure { 1100 } else { 30 };
             for k in 0..rounds {
                 sim.advance(2100);
                 sim.tick(n, P_ROUTING);
@@ -400,6 +400,39 @@ impl Scenario for C16 {
                 r.probe_n("persistent_failure_requests", request_count_for_cursed);
                 if per_peer_max > 501 {
                     r.violate("C16|unbounded-retries", format!("a block that always fails was requested {} times from one peer", per_peer_max));
+                }
+                // once the retries of the failing block are exhausted it holds no slot any more: a block announced
+                // now by a peer that had given up on it is requested within a few rounds
+                if r.violations.is_empty() && sim.panics.is_empty() {
+                    let gave_up: Vec<(usize, u64)> = peer_conn
+                        .iter()
+                        .filter(|(c, idx, has_url)| *has_url && sim.conns[*c].open && sim.fetch_log.iter().filter(|f| f.hash == ch && f.peer == *idx).count() >= 500)
+                        .map(|(c, idx, _)| (*c, *idx))
+                        .collect();
+                    r.probe(if gave_up.is_empty() { "tail_no_peer_gave_up" } else if !sim.fetches.is_empty() { "tail_fetches_pending" } else { "tail_ran" });
+                    if !gave_up.is_empty() && sim.fetches.is_empty() {
+                        let fresh = [0xF5u8; 32];
+                        let tip_id = sim.nodes[n].tip().0;
+                        for (c, _) in &gave_up {
+                            sim.ext_send(*c, Message::BlockHeaderHash(fresh, tip_id + 3).serialize());
+                        }
+                        r.fault("announcement_after_retries_were_exhausted", 1);
+                        for _ in 0..6 {
+                            sim.settle_without_fetches(20_000);
+                            sim.advance(2100);
+                            sim.tick(n, P_ROUTING);
+                        }
+                        sim.settle_without_fetches(20_000);
+                        for (_, idx) in &gave_up {
+                            if !sim.fetch_log.iter().any(|f| f.hash == fresh && f.peer == *idx) {
+                                r.violate(
+                                    "C16|announced-block-never-requested|after-exhausted-retries",
+                                    format!("peer {} announced a new block after the retries of a permanently failing block ({} requests) were exhausted: it was not requested within 6 rounds although nothing is in flight", idx, per_peer_max),
+                                );
+                                break;
+                            }
+                        }
+                    }
                 }
             }
             if let Some((nn, what, p)) = sim.panics.first() {
